@@ -75,8 +75,34 @@ func damageRichPlan(t *rapid.T, op *Op) string {
 		_ = json.Unmarshal(b, &m)
 		return m
 	}
-	k := uni(t, 24, "plan.damage")
+	k := uni(t, 26, "plan.damage")
 	switch k {
+	case 24, 25:
+		// a title or body of nothing but white space that is not ASCII
+		ws := oneOf(t, []string{"\u00a0", "\u3000", "\u2003\u2003", "\u00a0 \u3000", "\u2028"}, "uws.which")
+		i := uni(t, n, "uws.i")
+		if pct(t, 50, "uws.body") {
+			d.Tasks[i].Body = sp(ws)
+			return "task body of non-ASCII white space only"
+		}
+		if pct(t, 30, "uws.epic") {
+			d.Title = sp(ws)
+			return "epic title of non-ASCII white space only"
+		}
+		d.Tasks[i].Title = sp(ws)
+		d.Tasks[i].After = nil
+		for j := range d.Tasks {
+			if j != i {
+				var keep []string
+				for _, a := range d.Tasks[j].After {
+					if a != ws {
+						keep = append(keep, a)
+					}
+				}
+				d.Tasks[j].After = keep
+			}
+		}
+		return "task title of non-ASCII white space only"
 	case 22, 23:
 		// an after entry that differs from a title only by surrounding white space or by
 		// case names no task of the document
